@@ -156,6 +156,9 @@ func ensureIntrinsics(pkg *types.Package) {
 	sc.Insert(types.NewFunc(token.NoPos, pkg, "hash64", types.NewSignatureType(nil, nil, nil, types.NewTuple(v("s", types.Typ[types.String])), types.NewTuple(v("", types.Typ[types.Uint64])), false)))
 	// rangepos(): byte position of the string iterator of the loop the clause belongs to
 	sc.Insert(types.NewFunc(token.NoPos, pkg, "rangepos", types.NewSignatureType(nil, nil, nil, nil, types.NewTuple(v("", intT)), false)))
+	// rangedone(): the map-range loop the clause belongs to has just been told by the runtime
+	// that no key is left (the `ok` of its last `next` was false); false inside the body
+	sc.Insert(types.NewFunc(token.NoPos, pkg, "rangedone", types.NewSignatureType(nil, nil, nil, nil, types.NewTuple(v("", boolT)), false)))
 	// backedge(), returned()
 	for _, n := range []string{"backedge", "returned"} {
 		sc.Insert(types.NewFunc(token.NoPos, pkg, n, types.NewSignatureType(nil, nil, nil, nil, types.NewTuple(v("", boolT)), false)))
@@ -886,6 +889,18 @@ func (e *SpecEnv) intrinsic(name string, n *ast.CallExpr, targs []types.Type) Va
 			}
 		}
 		e.fail("loop has no string range iterator")
+	case "rangedone":
+		if e.frame == nil || e.loop == nil {
+			e.fail("rangedone() outside a loop clause")
+		}
+		for _, instr := range e.loop.Instrs {
+			if nx, ok := instr.(*ssa.Next); ok && !nx.IsString {
+				if p, ok := e.state().iters[nx.Iter.(*ssa.Range)]; ok {
+					return Not(p)
+				}
+			}
+		}
+		e.fail("loop has no map range iterator")
 	case "backedge", "returned":
 		if v, ok := e.objs[nil]; ok {
 			_ = v
